@@ -5,7 +5,7 @@ From Coq Require Import QArith ZArith.
 From Coq Require Import PrimFloat Uint63.
 From TJ Require Import Gen.ConstsGen Proofs.GrowthCorner.
 
-Theorem C14_loop_bounds_agree : maxiter_inmem_gen = maxiter_file_gen /\ 1 <= maxiter_inmem_gen.
+Theorem C14_loop_bounds_agree : maxiter_inmem_gen = maxiter_file_gen /\ (1 <= maxiter_inmem_gen)%nat.
 Proof. split; [reflexivity|]. unfold maxiter_inmem_gen. repeat constructor. Qed.
 (* the sampler's estimate of the next batch size: mathematically >= 1 (the loop cannot stall), but 0 in binary64 at
    safety_factor = n_need = 1, n_good = n_evals = 49 -- the early end Model/Iterative.v accepts through its flag early_ok *)
